@@ -42,6 +42,12 @@
 //! assert_eq!(deque.poll_front(cx), Poll::Ready(None));
 //! ```
 
+#[cfg(folo_verif)]
+#[path = "../../testing/verif/sync_shim.rs"]
+mod verif_sync;
+#[cfg(folo_verif)]
+#[doc(hidden)]
+pub mod __verif;
 mod erased_future;
 mod future_deque;
 mod future_deque_core;
